@@ -209,6 +209,12 @@ def run(ctx: Ctx) -> None:
                 "persisted reference to the old one"], "tables", what=f"{name} updates the write-side and read-side codec tables inconsistently")
     rep.floor("C17.R6", n6, 2)
 
+    # ---- R9 presence of empty results -------------------------------------------------------------------
+    from . import storerules as S_
+    rep.rule("C17.R9", "the local store reports a blob present whatever its size (text and bytes are stored verbatim: '' and b'' are zero-length files)")
+    n9 = S_.presence_ignores_size(ctx, S_.LocalView(ctx), "C17.R9")
+    rep.floor("C17.R9", n9, 2)
+
     # ---- R7 exact lookup by reference ---------------------------------------------------------------
     rep.rule("C17.R7", "the reference table is read with the requested reference itself as key (no derived / fallback key): a reference that is not "
                        "registered is an error, never another codec")
@@ -251,6 +257,35 @@ def run(ctx: Ctx) -> None:
                         "a blob whose metadata names an unregistered reference (a user codec absent from this process) is decoded by another codec"],
                         stmt_key(n), what="an unregistered codec reference falls back to a different codec")
     rep.floor("C17.R7", n7, 1)
+
+    # ---- R8 registered references stay registered -----------------------------------------------------------
+    rep.rule("C17.R8", "no registry method removes an entry from the reference table (pop / del / clear / a filtered copy): a blob written through a "
+                       "codec stays readable after newer codecs are registered")
+    n8 = 0
+    for m in reg.methods.values():
+        if m.name == "__init__":
+            continue
+        for n in m.own_nodes():
+            what8 = None
+            if isinstance(n, ast.Call) and isinstance(n.func, ast.Attribute) and n.func.attr in ("pop", "popitem", "clear") and isinstance(n.func.value, ast.Attribute) \
+                    and n.func.value.attr == ref_table:
+                what8 = f"`{unparse(n, 50)}` removes entries"
+            elif isinstance(n, ast.Delete) and any(isinstance(x, ast.Attribute) and x.attr == ref_table for t_ in n.targets for x in ast.walk(t_)):
+                what8 = f"`{unparse(n, 50)}` removes entries"
+            elif isinstance(n, (ast.Assign, ast.AnnAssign)) and n.value is not None and any(
+                    isinstance(t, ast.Attribute) and t.attr == ref_table and isinstance(t.value, ast.Name) and t.value.id == "self"
+                    for t in (n.targets if isinstance(n, ast.Assign) else [n.target])):
+                filt = [c for c in ast.walk(n.value) if isinstance(c, (ast.DictComp, ast.GeneratorExp, ast.ListComp)) and any(g.ifs for g in c.generators)]
+                if filt and any(isinstance(x, ast.Attribute) and x.attr == ref_table for x in ast.walk(n.value)):
+                    what8 = f"`{unparse(n, 70)}` keeps a filtered copy of the table"
+            if what8:
+                n8 += 1
+                rep.bad("C17.R8", m.qname, "registered references stay registered", m.loc(n), [f"{m.loc(n)}: {what8}",
+                        "write with codec X (reference in the blob's metadata), register a newer codec Y that takes over X's types, read the old blob: "
+                        "'Requested protocol <X.ref>, which is not registered'"], stmt_key(n), what="registering a codec can unregister the reference of an older one")
+    if n8 == 0:
+        rep.ok("C17.R8", reg.qname, "registered references stay registered (no removal from the reference table)", reg.module.relpath)
+
 
 
 def codec_duals(ctx: Ctx, rule4: str, rule5: str) -> int:
